@@ -402,7 +402,7 @@ func (k *Kernel) doStat(t *task, path string, lstat bool) Rep {
 		}
 		if lstat {
 			if _, ok := k.disk.Links[rp]; ok {
-				return Rep{A: 2}
+				return Rep{A: 2, S: rp}
 			}
 		}
 		path = rp
@@ -411,11 +411,12 @@ func (k *Kernel) doStat(t *task, path string, lstat bool) Rep {
 		k.fired(f)
 		return Rep{Status: int64(syscall.EIO)}
 	}
+	// S: the resolved path - the identity of the file (what os.SameFile compares)
 	if c, ok := k.disk.Files[path]; ok {
-		return Rep{A: 0, B: int64(len(c))}
+		return Rep{A: 0, B: int64(len(c)), S: path}
 	}
 	if k.disk.Dirs[path] {
-		return Rep{A: 1}
+		return Rep{A: 1, S: path}
 	}
 	if k.underFile(path) {
 		return Rep{Status: int64(syscall.ENOTDIR)}
